@@ -460,21 +460,17 @@ public:
             }
 
             // Calculate the lowest/largest m eigenpairs; Solve the generalized eigenvalue problem.
-            DenseSymMatProd<Scalar> Aop(gramA);
-            DenseCholesky<Scalar> Bop(gramB);
-
-            SymGEigsSolver<DenseSymMatProd<Scalar>, DenseCholesky<Scalar>, GEigsMode::Cholesky>
-                geigs(Aop, Bop, m_nev, (std::min)(10, int(gramA.rows()) - 1));
-
-            geigs.init();
-            geigs.compute(SortRule::SmallestAlge);
+            // The Gram matrices have at most 3 * nev rows, so the problem is solved by a dense
+            // solver, which returns all eigenvalues in ascending order. (An iterative solver
+            // restricted to the range of gramA cannot see a zero eigenvalue of a singular A,
+            // and does not accept nev = 1 or nev >= 10 here.)
+            Eigen::GeneralizedSelfAdjointEigenSolver<Matrix> geigs(gramA, gramB);
 
             // Mat evecs
-            if (geigs.info() == CompInfo::Successful)
+            if (geigs.info() == Eigen::Success)
             {
-                m_evalues = geigs.eigenvalues();
-                m_evectors = geigs.eigenvectors();
-                sort_epairs(m_evalues, m_evectors, SortRule::SmallestAlge);
+                m_evalues = geigs.eigenvalues().head(m_nev);
+                m_evectors = geigs.eigenvectors().leftCols(m_nev);
             }
             else
             {
